@@ -50,18 +50,12 @@ Proof.
 Qed.
 
 (* ---- offline signature ---- *)
+(* definitional since the model's off_spk_size / off_sig_size ARE the regenerated functions; what
+   the model needs of them is proved shape-independently in Proofs/SigLen.v *)
 Theorem tie_off_spk_size t : g_offline_signature_SigningPublicKeySize t = off_spk_size t.
-Proof.
-  split_on t [0; 1; 2; 3; 4; 5; 6; 7; 8; 11].
-  unfold g_offline_signature_SigningPublicKeySize, off_spk_size, sw_lookup, sw_offline_signature_SigningPublicKeySize, sw_offline_signature_SigningPublicKeySize_default, g_memZ, memZ.
-  cbn [existsb]. neq_false. reflexivity.
-Qed.
+Proof. reflexivity. Qed.
 Theorem tie_off_sig_size t : g_offline_signature_SignatureSize t = off_sig_size t.
-Proof.
-  split_on t [0; 1; 2; 3; 4; 5; 6; 7; 8; 11].
-  unfold g_offline_signature_SignatureSize, off_sig_size, sw_lookup, sw_offline_signature_SignatureSize, sw_offline_signature_SignatureSize_default, g_memZ, memZ.
-  cbn [existsb]. neq_false. reflexivity.
-Qed.
+Proof. reflexivity. Qed.
 Theorem tie_offline_validate o : g_offline_signature_OfflineSignature_ValidateStructure (view_off o) = off_validate_structure o.
 Proof.
   unfold g_offline_signature_OfflineSignature_ValidateStructure, g_offline_signature_validateTransientKeySize,
